@@ -43,6 +43,9 @@ Definition to_int_size (w h : Q) : isize :=
 
 (* `x as i32` for a float that is already integral: saturating *)
 Definition sat_i32 (z : Z) : Z := Z.max I32_MIN (Z.min z I32_MAX).
+(* `x as i32` of a finite float: truncation toward zero, saturating *)
+Definition Qtrunc (q : Q) : Z := if Qle_bool 0 q then Qfloor q else Qceiling q.
+Definition f2i32 (q : Q) : Z := sat_i32 (Qtrunc q).
 (* Rect::to_int_rect = IntRect::from_xywh(floor x, floor y, max(1, ceil w), max(1, ceil h)).unwrap():
    None here = the unwrap inside tiny-skia-path panics *)
 Definition q_to_int_rect (x y w h : Q) : option irect :=
